@@ -46,6 +46,12 @@ func zzErrCatalogue() []zzErrCase {
 		{zzWrap{zzValErr{}}, false, true, false},
 		{errors.Join(zzErrB, &zzPtrErr{}), false, false, true},
 		{errors.Join(zzErrB, zzWrap{zzErrA}), true, false, false},
+		// three levels: a join below an ordinary wrap, a join below a join, a wrap below a join below a wrap
+		{fmt.Errorf("ctx: %w", errors.Join(zzErrB, zzValErr{})), false, true, false},
+		{zzWrap{errors.Join(zzErrB, &zzPtrErr{})}, false, false, true},
+		{fmt.Errorf("ctx: %w", errors.Join(zzErrB, zzErrA)), true, false, false},
+		{errors.Join(zzErrB, errors.Join(zzErrB, zzValErr{})), false, true, false},
+		{zzWrap{errors.Join(zzErrB, zzWrap{&zzPtrErr{}})}, false, false, true},
 	}
 }
 
@@ -177,4 +183,66 @@ func ZZ_H12b_IsAbortable() {
 		zzvrt.Assert(!got, "classification: no matching abort condition means no abort")
 	}
 	zzvrt.Reach("isabortable-done")
+}
+
+type zzRes struct{ code int }
+type zzBox struct {
+	p    *int
+	name string
+}
+
+// H12c: HandleResult / AbortOnResult match by *deep* equality whatever the result type is: pointers, structs holding
+// pointers and slices are compared by what they point to, not by identity (a fresh but equal value matches).
+func ZZ_H12c_ResultShapes() {
+	hv := zzvrt.Int("handled")
+	rv := zzvrt.Int("result")
+	abort := zzvrt.Choose("abort", 2) == 1
+	var got bool
+	switch zzvrt.Choose("shape", 4) {
+	case 0:
+		if abort {
+			p := &BaseAbortablePolicy[*zzRes]{}
+			p.AbortOnResult(&zzRes{hv})
+			got = p.IsAbortable(&zzRes{rv}, nil)
+		} else {
+			p := &BaseFailurePolicy[*zzRes]{}
+			p.HandleResult(&zzRes{hv})
+			got = p.IsFailure(&zzRes{rv}, nil)
+			zzvrt.Assert(!p.IsFailure(nil, nil), "classification: a nil result does not equal a handled non-nil result")
+		}
+	case 1:
+		a, b := hv, rv
+		if abort {
+			p := &BaseAbortablePolicy[zzBox]{}
+			p.AbortOnResult(zzBox{&a, "x"})
+			got = p.IsAbortable(zzBox{&b, "x"}, nil)
+		} else {
+			p := &BaseFailurePolicy[zzBox]{}
+			p.HandleResult(zzBox{&a, "x"})
+			got = p.IsFailure(zzBox{&b, "x"}, nil)
+		}
+	case 2:
+		if abort {
+			p := &BaseAbortablePolicy[[]int]{}
+			p.AbortOnResult([]int{1, hv})
+			got = p.IsAbortable([]int{1, rv}, nil)
+		} else {
+			p := &BaseFailurePolicy[[]int]{}
+			p.HandleResult([]int{1, hv})
+			got = p.IsFailure([]int{1, rv}, nil)
+		}
+	case 3:
+		if abort {
+			p := &BaseAbortablePolicy[zzRes]{}
+			p.AbortOnResult(zzRes{hv})
+			got = p.IsAbortable(zzRes{rv}, nil)
+		} else {
+			p := &BaseFailurePolicy[zzRes]{}
+			p.HandleResult(zzRes{hv})
+			got = p.IsFailure(zzRes{rv}, nil)
+		}
+	}
+	zzvrt.Observe("got", got)
+	zzvrt.Assert(got == (hv == rv), "classification: result conditions match by deep equality (pointer, pointer-holding struct, slice, struct results)")
+	zzvrt.Reach("resultshapes-done")
 }
